@@ -31,6 +31,9 @@ class PathInfo:
     @classmethod
     def make_from_integer(cls, integer: int) -> 'PathInfo':
         """Create PathInfo from integer value."""
+        # the path identifier is 4 octets (RFC 7911): refuse what does not fit rather than keep the low 32 bits
+        if not 0 <= integer <= 0xFFFFFFFF:
+            raise ValueError(f'{integer} is not a valid path-information\n  Must be a number from 0 to 4294967295')
         packed = b''.join(bytes([(integer >> offset) & 0xFF]) for offset in [24, 16, 8, 0])
         return cls(packed)
 
